@@ -273,9 +273,12 @@ Fixpoint capture (fc : fctx) (L : Z) (ce : cenv) (l : list ident) : list rinstr 
   | [] => []
   | y :: t =>
     match clookup y ce with
-    | Some i => ins BYTECODE_ID_LOCAL L i              (* FREEVAR_PARAM / BIND / FUNC *)
-    | None => ins BYTECODE_ID_GLOBAL (gpos y (fc_fvs fc) 0) 0    (* FREEVAR_FREEVAR *)
-    end :: capture fc (L + 1) ce t
+    | Some i => [ins BYTECODE_ID_LOCAL L i]              (* FREEVAR_PARAM / BIND / FUNC *)
+    | None =>
+      if self_is (fc_self fc) y                          (* FREEVAR_FUNC_SELF: the running nested function itself *)
+      then [ins0 BYTECODE_COPYGLOB; ins BYTECODE_ID_FUNC_ADDR (fidx y) 0]
+      else [ins BYTECODE_ID_GLOBAL (gpos y (fc_fvs fc) 0) 0]    (* FREEVAR_FREEVAR *)
+    end ++ capture fc (L + 1) ce t
   end.
 
 (* func_emit_native *)
@@ -615,10 +618,10 @@ Definition run_vm_peak (p : program) (fuel : nat) (args : list Z) : vres * (nat 
      - the right-hand side of an assignment is `int_shaped`: a form whose value, when the evaluator
        yields one, is an int/bool cell (write `x = y + 0` for `x = y`; Src/Eval.v is untyped: it would
        copy a function value where the compiled OP_ASS_INT cannot);
-     - inside a function nested in a NAMED NESTED function f (at any depth) the name f does not occur
-       (front/gencode.c func_gencode_freevars_freevar resolves such a captured `f` against f's own symbol
-       table entry and the emitter reads slot f->index of the WRONG frame: found while modelling, see
-       known findings); f's own body may use f (recursion, COPYGLOB);
+     - (no longer a side condition: inside a function h nested in a NAMED NESTED function f the name f may
+       occur — front/gencode.c marks the entry f adds for itself FREEVAR_FUNC_SELF and the closure maker
+       captures it by COPYGLOB; ID_FUNC_ADDR f, `capture`; before the repair of /repo the emitter read slot
+       f->index of the wrong frame: found while modelling, see known findings);
      - a function with catch clauses has no self call in tail position (as in F5); clause blocks see
        the parameters and the captured names. *)
 
@@ -723,7 +726,7 @@ Fixpoint in_F4 (own : option ident) (sc : list ident) (e : expr) {struct e} : bo
 with fd_in_F4 (own : option ident) (sc : list ident) (k : fkind) (fd : fdef) {struct fd} : bool :=
   match fd with
   | FDef name ps _ body cs ca =>
-    let sc1 := param_names ps ++ remove_id own sc in
+    let sc1 := param_names ps ++ sc in
     let own1 := match k with KNamed => Some name | _ => None end in
     let blk := items_F4_f (in_F4 own1) (fun sc fd => fd_in_F4 own1 sc KNamed fd) sc1 0%nat in
     blk body &&
@@ -788,6 +791,36 @@ Definition known (AF : list (fkind * fdef)) (k : fkind) (fd : fdef) : bool :=
 Lemma known_nth : forall AF k fd, known AF k fd = true -> exists i, nth_error AF i = Some (k, fd).
 Proof. intros AF k fd H. unfold known in H. destruct (in_dec kf_eq_dec (k, fd) AF) as [Hin|]; [|discriminate]. apply In_nth_error. exact Hin. Qed.
 
+(* the names bound by `var x = e` with an int_shaped e, anywhere in the program (function expressions are functions of
+   the image themselves): at level 6 these are the names that may be assigned to — every binder of such a name
+   binds an int cell (items_F_f), and int cells stay int cells (the assigned value is int_shaped) *)
+Fixpoint ivars_e (e : expr) {struct e} : list ident :=
+  match e with
+  | ENeg a | ENot a | EBNot a | EPrint a => ivars_e a
+  | EBin _ a b | EWhile a b | EDoWhile a b | EIf a b | EAssign a b => ivars_e a ++ ivars_e b
+  | ECond c a b => ivars_e c ++ ivars_e a ++ ivars_e b
+  | EFor i c s b => ivars_e i ++ ivars_e c ++ ivars_e s ++ ivars_e b
+  | ECall f args =>
+      ivars_e f ++ (fix go (l : list expr) : list ident := match l with [] => [] | a :: t => ivars_e a ++ go t end) args
+  | EBlock items =>
+      (fix go (l : list item) : list ident :=
+         match l with
+         | [] => []
+         | IVar x a :: t => (if int_shaped a then [x] else []) ++ ivars_e a ++ go t
+         | ILet _ a :: t | IExpr a :: t => ivars_e a ++ go t
+         | IFunc _ :: t => go t
+         end) items
+  | _ => []
+  end.
+
+Definition int_vars (AF : list (fkind * fdef)) : list ident :=
+  flat_map (fun kf => ivars_e (EBlock (fd_body (snd kf))) ++
+                      flat_map (fun c => ivars_e (EBlock (snd c))) (fd_catches (snd kf)) ++
+                      match fd_catch_all (snd kf) with Some b => ivars_e (EBlock b) | None => [] end) AF.
+
+(* level <= 5, or the condition *)
+Definition at6 (lv : nat) (b : bool) : bool := Nat.leb lv 5 || b.
+
 Definition run_ok (FS : fsigs) (TL : list ident) (AF : list (fkind * fdef)) (self : option ident) (sc : list ident) (fds : list fdef) : bool :=
   let names := map fd_name fds in
   nodup_ids names &&
@@ -799,11 +832,18 @@ Definition items_F_f (FS : fsigs) (TL : list ident) (AF : list (fkind * fdef)) (
   match l with
   | [] => false                                  (* a block ends with an expression item *)
   | IExpr e :: t => fexpr sc e && match t with [] => true | _ => go sc 0%nat t end
-  | ILet x e :: t | IVar x e :: t => negb (is_fname FS x) && negb (self_is self x) && fexpr sc e && go (x :: sc) 0%nat t
+  | ILet x e :: t =>
+      at6 lv (negb (mem_id x (int_vars AF))) &&
+      (negb (is_fname FS x) && negb (self_is self x) && fexpr sc e && go (x :: sc) 0%nat t)
+  | IVar x e :: t =>
+      at6 lv (negb (mem_id x (int_vars AF)) || int_shaped e) &&
+      (negb (is_fname FS x) && negb (self_is self x) && fexpr sc e && go (x :: sc) 0%nat t)
   | IFunc fd :: t =>
       match pend with
       | O => let fds := fd :: run_funcs t in
-             Nat.leb 4 lv && run_ok FS TL AF self sc fds && go (map fd_name fds ++ sc) (length (run_funcs t)) t
+             Nat.leb 4 lv && (run_ok FS TL AF self sc fds &&
+                              at6 lv (forallb (fun g => negb (mem_id (fd_name g) (int_vars AF))) fds)) &&
+             go (map fd_name fds ++ sc) (length (run_funcs t)) t
       | S p => go sc p t
       end
   end.
@@ -821,9 +861,9 @@ Fixpoint in_F (FS : fsigs) (TL : list ident) (AF : list (fkind * fdef)) (self : 
       (f1_binop op || Nat.leb 2 lv) && negb (is_lit a && is_lit b) && shift_ok op b &&
       in_F FS TL AF self lv sc a && in_F FS TL AF self lv sc b
   | ECond c a b => negb (is_lit c) && in_F FS TL AF self lv sc c && in_F FS TL AF self lv sc a && in_F FS TL AF self lv sc b
-  | EAssign (EVar x) r => Nat.leb lv 5 && mem_id x sc && int_shaped r && in_F FS TL AF self lv sc r
-                 (* not at level 6: Src/Eval.v is untyped, an assignment through an alias of a function cell goes on
-                    there and is stuck on the machine *)
+  | EAssign (EVar x) r => at6 lv (mem_id x (int_vars AF)) && mem_id x sc && int_shaped r && in_F FS TL AF self lv sc r
+                 (* at level 6 only to a name bound by var x = <int_shaped>: Src/Eval.v is untyped, an assignment
+                    through an alias of a function cell goes on there and is stuck on the machine *)
   | EBlock items => items_F_f FS TL AF self lv (in_F FS TL AF self lv) sc 0%nat items
   | EWhile c b => Nat.leb 2 lv && in_F FS TL AF self lv sc c && in_F FS TL AF self lv sc b
   | EDoWhile b c => Nat.leb 2 lv && in_F FS TL AF self lv sc b && in_F FS TL AF self lv sc c
@@ -862,6 +902,7 @@ Definition func_in_P (FS : fsigs) (TL : list ident) (AF : list (fkind * fdef)) (
   items_F FS TL AF (fc_self (ctx_of TL (fst kf) (snd kf))) lv (body_scope TL (fst kf) (snd kf)) (fd_body (snd kf)) &&
   negb (mem_id (fd_name (snd kf)) (param_names (fd_params (snd kf)))) &&
   forallb (fun x => negb (is_fname FS x)) (param_names (fd_params (snd kf))) &&
+  at6 lv (forallb (fun x => negb (mem_id x (int_vars AF))) (param_names (fd_params (snd kf)))) &&
   (no_catch (snd kf) ||
    (forallb (fun c => items_F FS TL AF (fc_self (ctx_of TL (fst kf) (snd kf))) lv (body_scope TL (fst kf) (snd kf)) (snd c))
             (fd_catches (snd kf)) &&
